@@ -25,8 +25,14 @@ class Program:
         # tasks: list of dict(join=None|'all'|'one'|int, succ=[(target, guard)], err=[...], compl=[...], outs=[...])
         self.tasks = tasks
 
+    def tn(self, i):
+        # The dispatcher orders join commands by their unique key, i.e. by the task NAME as a string, the model by
+        # the task index: names are zero-padded once there are more than ten tasks so that both orders agree
+        # ('t10' < 't2' as strings).
+        return ('t%02d' if len(self.tasks) > 10 else 't%d') % i
+
     def names(self):
-        return ['t%d' % i for i in range(len(self.tasks))]
+        return [self.tn(i) for i in range(len(self.tasks))]
 
     # -- YAML for mistral
     def yaml(self, guard_style='yaql'):
@@ -36,8 +42,8 @@ class Program:
             return {'T': '<% $.one = 1 %>', 'F': '<% $.one = 2 %>', 'R': '<% $.one.nosuch() %>'}[guard]
         lines = ["version: '2.0'", 'wf:', '  type: direct', '  input:', '    - one: 1', '  tasks:']
         for i, t in enumerate(self.tasks):
-            lines.append('    t%d:' % i)
-            lines.append('      action: verif.act tag="t%d"' % i)
+            lines.append('    %s:' % self.tn(i))
+            lines.append('      action: verif.act tag="%s"' % self.tn(i))
             if t.get('join') is not None:
                 lines.append('      join: %s' % t['join'])
             for key, field in (('on-success', 'succ'), ('on-error', 'err'), ('on-complete', 'compl')):
@@ -46,7 +52,7 @@ class Program:
                     continue
                 lines.append('      %s:' % key)
                 for tgt, guard in cl:
-                    name = tgt if isinstance(tgt, str) else 't%d' % tgt
+                    name = tgt if isinstance(tgt, str) else self.tn(tgt)
                     if guard == 'N':      # no condition at all
                         lines.append('        - %s' % name)
                     else:
@@ -74,7 +80,7 @@ class Program:
         o = {}
         for i, t in enumerate(self.tasks):
             for k, out in enumerate(t.get('outs', [])):
-                o[('t%d' % i, None, k)] = {'ok': ('ok', i), 'err': ('err', 'boom'), 'cancel': ('cancel',)}[out]
+                o[(self.tn(i), None, k)] = {'ok': ('ok', i), 'err': ('err', 'boom'), 'cancel': ('cancel',)}[out]
         return o
 
     def to_json(self):
